@@ -352,6 +352,15 @@ class SimNet:
     def _accept(self, srv, conn, srv_label):
         sim = self.sim
         loop = sim.loop
+        if not getattr(srv, "serving", True):
+            # the listener went away between connect() and accept (its process died / it was closed):
+            # the kernel resets the half-established connection
+            sim.rec("accept_reset", srv_label, conn.cid)
+            conn.broken = True
+            tr0 = conn.tr[0]
+            if tr0 is not None and not tr0._lost_called:
+                loop.call_soon(tr0.sim_error, ConnectionResetError(104, "Connection reset by peer (listener gone, simulated)"))
+            return
         if getattr(srv, "raw_factory", None) is not None:
             proto = srv.raw_factory()
             tr = SimTransport(sim, conn, 1, proto, srv.raw_label)
